@@ -29,7 +29,8 @@ DOCS = {
     "dJunk": b'{"openapi": "3.0.0", "info": {{{ not json',
 }
 HOOKS = {"ok": ["true"], "missing": ["no-such-command-opcv --x"], "fail": ["false"]}
-USERFILES = {"u_top": "USER_NOTES.txt", "u_pkg": "{pkg}/user_helpers.py", "u_models": "{pkg}/models/stale_user.py",
+FLAV_FILE = {"poetry": "setup.py", "pdm": "setup.py", "none": "pyproject.toml", "setup": "CHANGELOG.md"}
+USERFILES = {"u_top": "USER_NOTES.txt", "u_flav": "{flav}", "u_pkg": "{pkg}/user_helpers.py", "u_models": "{pkg}/models/stale_user.py",
              "u_api": "{pkg}/api/stale_user.py"}
 
 
@@ -56,7 +57,8 @@ class Sandbox:
     def userpath(self, key: str) -> Path:
         if key == "sib":
             return self.work / "sibling" / "user_extra.txt"
-        rel = USERFILES[key].format(pkg=self.pkg) if self.pkg else USERFILES[key].replace("{pkg}/", "")
+        rel = USERFILES[key].replace("{flav}", FLAV_FILE[self.meta])
+        rel = rel.format(pkg=self.pkg) if self.pkg else rel.replace("{pkg}/", "")
         return self.out / rel
 
     def snap_all(self) -> dict:
@@ -140,8 +142,8 @@ def fresh_tree(doc_key: str, meta: str, hk: str, scratch: Path) -> dict:
 def validate_traces(events: list[dict], scratch_dir: Path):
     path = scratch_dir / "fs.ndjson"
     path.write_text("\n".join(json.dumps(e) for e in events) + "\n")
-    cfg = tlc.write_cfg(scratch_dir / "fstrace.cfg", {"MaxCmds": 99, "Docs": set(DOCS), "HookKinds": set(HOOKS),
-                                                     "Touches": {"u_top", "u_pkg", "u_models", "u_api", "sib"}},
+    cfg = tlc.write_cfg(scratch_dir / "fstrace.cfg", {"MaxCmds": 99, "MaxTouches": 99, "Docs": set(DOCS), "HookKinds": set(HOOKS),
+                                                     "Touches": {"u_top", "u_flav", "u_pkg", "u_models", "u_api", "sib"}},
                         ["NoClobber", "Converges", "NoStale", "ExitLaw", "RejectedWritesNothing"], spec="TSpec", post="Post")
     res = tlc.run_tlc("FsTrace.tla", cfg, workers=1, env={"TRACE_FILE": str(path)}, timeout=1200)
     post = [p for p in res.printed if isinstance(p, dict) and "law" in p]
